@@ -355,6 +355,19 @@ class VContext(V):
         ctx.ghost["touched_w"] = Store(ctx.ghost["touched_w"], name.t, True)
 
 
+def _ctx_pop(ctx, it, obj, args, kw):
+    """dict.pop(key, default): removes the key if present, never raises with a default"""
+    name = ctx.deref(args[0])
+    if len(args) < 2:
+        if ctx.choose(2, "pop-missing") == 0:
+            ctx.raise_("KeyError")
+    ctx.ghost["touched_w"] = Store(ctx.ghost["touched_w"], name.t, True)
+    return VPy("<popped>")
+
+
+VContext.methods = {"pop": _ctx_pop}
+
+
 class VArr(V):
     """a value fetched from the context under `name`; an item store mutates that variable"""
     ty = None
@@ -560,6 +573,17 @@ class ExecAssign(ExecContract):
                     ("remaining-loops-are-loops-of-the-statement",
                      subset(IDENTS(s.loop(1)["$rest"].t), IDENTS(f_loops(self.s))))]),
     })
+
+
+class ExecAssignNoSpuriousException(ExecAssign):
+    """C01: exec_Assign raises nothing but what an expression evaluation raises (in particular no
+    KeyError for a loop that has no iterations)"""
+    prop = "C01"
+    variant_name = "no-spurious-exception"
+
+    @property
+    def raises(self):
+        return {"EvalError": self.frame}
 
 
 class ExecCall(ExecContract):
